@@ -11,7 +11,7 @@ import (
 
 func init() {
 	register(&Rule{
-		ID: "OWN-CTOR", Props: []string{"C01", "C11", "C13", "C17"}, Floor: 9,
+		ID: "OWN-CTOR", Props: []string{"C01", "C11", "C13", "C17", "C12", "C06"}, Default: []string{"C01", "C11", "C13", "C17"}, Floor: 9,
 		Doc: "each owning constructor returns a fresh copy, or its argument only on the edge where the node's txnID equals the transaction's, and stamps fresh copies with the transaction's current txnID; header.clone/promote/newLeaf return fresh nodes and clone copies the node of the same kind",
 		Run: ruleOwnCtor,
 	})
@@ -116,6 +116,20 @@ func ruleOwnCtor(c *Ctx, r *Reporter) {
 							gated = true
 						}
 					}
+				}
+				// part: leaves carry no transaction id (txnID() answers 0 for them, and the first
+				// transaction of a tree runs with id 0), so the in-place edge must exclude leaves
+				if gated && spec.pkg == "part" {
+					leafOut := false
+					for _, f := range factsAt(ret.Block()) {
+						cond, val := stripNot(f.Cond, f.Val)
+						if call, ok := cond.(*ssa.Call); ok && !val {
+							if sf := staticCallee(call); sf != nil && c.fnName(sf) == isLeafName && len(call.Call.Args) > 0 && call.Call.Args[0] == ssa.Value(np) {
+								leafOut = true
+							}
+						}
+					}
+					r.checkP(append([]string{"C12", "C06"}, spec.props...), leafOut, name+"|leaves are never taken as owned", pos, "the in-place edge requires !n.isLeaf()", "cloneNode can return a leaf unchanged: leaves report txnID 0 and so does the first transaction of a tree, which then overwrites leaves in place without marking their watch channel (InsertWatch(k); Insert(k) in the first transaction leaves the channel open)")
 				}
 				if gated {
 					r.okP(spec.props, key, pos, "returns its argument only where the node's txnID equals the transaction's txnID")
@@ -457,12 +471,41 @@ func ruleFreeze(c *Ctx, r *Reporter) {
 				continue
 			}
 			name := c.fnName(fn)
+			incs := txnIDIncrements(fn)
 			if pkg == "lpm" && fn.Name() == "Commit" {
-				// records the epoch instead (EPOCH) and its caller clears the transaction (TXN-RETIRE)
-				r.okP(props, name+"|freeze-by-epoch", c.posStr(fn.Pos()), "lpm Commit hands the root out with prevTxnID=txnID; the next transaction starts at prevTxnID+1 (EPOCH) and the committed one is cleared (TXN-RETIRE)")
+				// the Trie records the epoch (EPOCH) with the id the nodes carry; the transaction itself
+				// must move on to a new id before the Trie leaves the function, or writes made through
+				// the same transaction afterwards modify the committed trie's nodes in place
+				frozen := len(incs) > 0
+				for _, ia := range allInstrs(fn) {
+					u, ok := ia.In.(*ssa.UnOp)
+					if !ok {
+						continue
+					}
+					if _, ok := loadOfField(u, "Txn", "root"); !ok {
+						continue
+					}
+					isInc := func(in ssa.Instruction) bool {
+						for _, inc := range incs {
+							if inc == in {
+								return true
+							}
+						}
+						return false
+					}
+					dom := false
+					for _, inc := range incs {
+						if instrDominates(inc, u) {
+							dom = true
+						}
+					}
+					if !dom && reachesReturnAvoiding(u, isInc, nil) != nil {
+						frozen = false
+					}
+				}
+				r.checkP(props, frozen, name+"|freezes the committed trie", c.posStr(fn.Pos()), "txn.txnID is incremented before the Trie built from txn.root is returned", "lpm.Txn.Commit hands out txn.root without moving the transaction to a new id: writes made through the same transaction afterwards modify the committed trie (and iterators taken from it) in place")
 				continue
 			}
-			incs := txnIDIncrements(fn)
 			n := 0
 			for _, ia := range allInstrs(fn) {
 				u, ok := ia.In.(*ssa.UnOp)
